@@ -191,7 +191,17 @@ pub fn nested_adjacent() -> Vec<(Opts, Vec<&'static str>, usize)> {
     let cmd_group2 = P::Cmd { name: "cmd".into(), shorts: vec![], longs: vec![], inner: Box::new(Opts::new(P::Seq(vec![P::Switch(Names::short('x')), point1.clone().opt()]))), adjacent: true, help: None };
     let any_tag = P::Adj(vec![P::AnyKv { metavar: "--tag=NAME".into(), help: None, dash: true }, pos("FILE")]).many();
     let any_kv = P::Adj(vec![P::AnyKv { metavar: "KEY=VAL".into(), help: None, dash: false }, pos("FILE")]).many();
+    // an adjacent command inside an adjacent group, the group inside an adjacent command / beside
+    // an optional argument of an enclosing adjacent group (scopes narrowed twice)
+    let c_cmd = P::Cmd { name: "c".into(), shorts: vec![], longs: vec![], inner: Box::new(Opts::new(P::Seq(vec![P::ReqFlag(Names::short('b'))]))), adjacent: true, help: None };
+    let a_c = P::Adj(vec![P::ReqFlag(Names::short('a')), c_cmd.clone()]);
+    let in_cmd = P::Cmd { name: "cmd".into(), shorts: vec![], longs: vec![], inner: Box::new(Opts::new(P::Seq(vec![a_c.clone()]))), adjacent: true, help: None };
+    let in_group = P::Adj(vec![P::arg(Names::short('x'), Ty::Os).opt(), a_c.clone()]);
     vec![
+        (Opts::new(P::Seq(vec![in_cmd.clone()])), vec!["cmd", "-a", "c", "-b", "z"], 6),
+        (Opts::new(P::Seq(vec![P::Switch(Names::short('v')), in_cmd.many()])), vec!["cmd", "-a", "c", "-b", "z", "-v"], 6),
+        (Opts::new(P::Seq(vec![in_group.clone()])), vec!["-a", "c", "-b", "z", "-x"], 6),
+        (Opts::new(P::Seq(vec![in_group.many(), pos("T").many()])), vec!["-a", "c", "-b", "z", "-x"], 6),
         (Opts::new(P::Seq(vec![any_tag.clone()])), vec!["--tag=a", "-Tb", "x", "--tag", "-z"], 5),
         (Opts::new(P::Seq(vec![P::Switch(Names::short('v')), any_tag])), vec!["--tag=a", "x", "-v", "--"], 5),
         (Opts::new(P::Seq(vec![any_kv])), vec!["k=v", "x", "=", "-z"], 5),
